@@ -573,7 +573,7 @@ def _drop_none_noreply(case):
 def soak_cases(tier, seed):
     """long lives: thousands of calls on one object (what a long-running process does in a minute), and clocks far from today's -
     a wall clock just before and after 2**31 and 2**32 seconds, and one that reads almost nothing"""
-    n = 2500 if tier == "quick" else 20000
+    n = 2500 if tier == "quick" else 10000
     for ki, kind in enumerate(("client", "pooled", "hash", "hash-pooled")):
         for now in (None, 2 ** 31 - 40, 2 ** 32 - 40, 4 * 10 ** 9, 0.5):
             x = (seed * 7919 + ki * 104729 + int((now or 0) % 1000) + 1) & 0x7FFFFFFF
